@@ -11,7 +11,8 @@ chunks with subruns, a malformed stream (gaps, out-of-order, mixed types / runs,
 annotations) and tampered directories (wrong n, missing file, missing filename, swapped files, ...) for
 the rejecting branches of the loader.
 Oracle: the wording of the property evaluated on the real objects: raw bytes of the concatenated rows,
-overall range, contiguity, the boundary rule, and metadata-versus-files consistency (n, nbytes, filesize,
+overall range, contiguity, the boundary rule (no row straddles a cut; a new cut is an old boundary or lies where no
+row covers it), and metadata-versus-files consistency (n, nbytes, filesize — recorded by the serial saver only,
 start/end, first/last row times, run id, chunk_i, overall start/end, writing_ended, no exception, no stray
 or missing files).
 """
@@ -75,11 +76,18 @@ def mk_array(rows, enc):
     return a
 
 
-def build_chunk(rc, enc):
+def target_mb(rows_target, itemsize, frac=0.5):
+    """a target size in MB worth `rows_target + frac` rows (0 <= frac < 1): strax must floor it to `rows_target` rows
+    (`int(target_size_mb * 1e6 // itemsize)`); `frac` varies so that a change of that rounding would show"""
+    mb = (rows_target + frac) * itemsize / 1e6
+    return mb if sl.target_rows(mb, itemsize) == rows_target else sl.target_mb(rows_target, itemsize)
+
+
+def build_chunk(rc, enc, frac=0.5):
     data = mk_array([tuple(r) for r in rc["rows"]], enc)
     return strax.Chunk(data_type=rc["data_type"], data_kind=rc["kind"], dtype=data.dtype, run_id=rc["run_id"],
                        start=rc["start"], end=rc["end"], data=data, subruns=rc["subruns"], superrun=rc["superrun"],
-                       target_size_mb=sl.target_mb(rc["target"], data.dtype.itemsize))
+                       target_size_mb=target_mb(rc["target"], data.dtype.itemsize, frac))
 
 
 # ----------------------------------------------------------------------------- scratch space
@@ -257,7 +265,7 @@ def _impl(case):
     rid, data_type, kind = case["run_id"], case["data_type"], case["kind"]
     side = _SIDE[key] = {"msgs": [], "status": "?"}
     try:
-        chunks = [build_chunk(rc, enc) for rc in case["chunks"]]
+        chunks = [build_chunk(rc, enc, case.get("mb_frac", 0.5)) for rc in case["chunks"]]
     except Exception as e:  # noqa: BLE001
         side["status"] = "construct"
         return "err-construct " + sl.err_name(e)
@@ -267,7 +275,7 @@ def _impl(case):
         lineage = {data_type: ["VerifPlugin", "0.0.0", {}]}
         dkey = strax.DataKey(rid, data_type, lineage, subruns={"s0": "all"} if rid.startswith("_") else None)
         md0 = dict(run_id=rid, data_type=data_type, data_kind=kind, dtype=dt, lineage_hash=dkey.lineage_hash,
-                   compressor=comp, lineage=lineage, chunk_target_size_mb=sl.target_mb(case["hdr_target"], dt.itemsize))
+                   compressor=comp, lineage=lineage, chunk_target_size_mb=target_mb(case["hdr_target"], dt.itemsize, case.get("mb_frac", 0.5)))
         saver = st.saver(dkey, md0, saver_timeout=120)
         dirname = saver.dirname
         pfx = saver.prefix
@@ -429,8 +437,11 @@ def oracle_roundtrip(msgs, case, chunks, loaded, md):
     for t in [c.start for c in loaded] + [loaded[-1].end]:
         if t in old:
             continue
-        if any(a <= t <= b for a, b, _k in rows):
-            msgs.append(f"new chunk boundary {t} is neither an old boundary nor strictly inside a row-free gap")
+        if any(a <= t < b for a, b, _k in rows):
+            msgs.append(f"new chunk boundary {t} is neither an old boundary nor in a stretch covered by no row")
+    for t in [c.start for c in loaded] + [loaded[-1].end]:
+        if any(a < t < b for a, b, _k in rows):
+            msgs.append(f"chunk boundary {t} cuts through a row")
     for c in loaded:
         if any(not (c.start <= t < e <= c.end) for t, e, _k in sl.rows_of(c.data)):
             msgs.append("a loaded row lies outside its chunk")
@@ -473,6 +484,7 @@ def base_case(rng, chunks, **kw):
     # the model's executor completes the pending writes in the order given by these sort keys (any permutation must
     # give the same directory and metadata as the real pool, whose order the OS decides)
     case["order_keys"] = [rng.randint(0, 5) for _ in range(rng.randint(0, 6))] if case["save_exec"] else []
+    case["mb_frac"] = rng.choice([0.5, 0.03, 0.97, 0.25])
     case.update(kw)
     if not case["save_exec"]:
         case["order_keys"] = []
@@ -601,6 +613,18 @@ def zero_subrun_cases(rng, n):
     return out
 
 
+T0 = 1_700_000_000_000_000_137
+
+
+def shift_case(case, t0=T0):
+    """the same case with every time moved to epoch scale (ns since 1970)"""
+    def sh_runs(d):
+        return None if d is None else {k: {"start": v["start"] + t0, "end": v["end"] + t0} for k, v in d.items()}
+    chunks = [dict(c, start=c["start"] + t0, end=c["end"] + t0, rows=[[r[0] + t0, r[1] + t0, r[2]] for r in c["rows"]],
+                   subruns=sh_runs(c["subruns"]), superrun=sh_runs(c["superrun"])) for c in case["chunks"]]
+    return dict(case, chunks=chunks, shifted=1)
+
+
 TAMPERS = ["n:{k}:1", "n:{k}:-1", "n:{k}:0", "rm:{k}", "nofn:{k}", "rid:{k}:_x", "rid:{k}:-", "rid:{k}:zz", "swap:{j}:{k}", "range:{k}:1:0",
            "range:{k}:0:-1", "range:{k}:-1:1", "nochunks"]
 
@@ -705,6 +729,23 @@ def run(ctx):
        "streams breaking one law or convention (gap, out of order, mixed data types / run ids, target 0, zero-length subrun, subruns on a plain run, "
        "super-run id without subruns, negative start, header target != chunk target, row outside its chunk): verdicts and what is left on disk "
        "compared with the model; plain round trip still demanded whenever every chunk is a valid chunk")
+
+    # 4b. epoch-scale replicas: the same streams with every time + T0 (absolute ns timestamps as real data has them)
+    pool_cases = [base_case(rng, (lambda ch: ch)(valid_stream(rng, superrun=rng.random() < 0.2)), expect="valid") for _ in range(ctx.pick(220, 2200))]
+    for c in pool_cases:
+        c["run_id"] = c["chunks"][0]["run_id"]
+        c["hdr_target"] = c["chunks"][0]["target"]
+    ex_sub = exhaustive_cases(3)
+    ex_sub = ex_sub[:: max(1, len(ex_sub) // ctx.pick(150, 1500))]
+    for j, (parts, rechunk, target) in enumerate(ex_sub):
+        pool_cases.append(dict(enc=ENCS[j % 4], comp=COMPRESSORS[(j // 4) % 4], rechunk=rechunk, save_exec=int(j % 3 == 0), load_exec=int(j % 2 == 0),
+                               order_keys=[2, 0, 1] if j % 3 == 0 else [], run_id="r", data_type="d", kind="k", hdr_target=target, tamper="none",
+                               expect="valid", chunks=[raw(a, b, rs, target) for a, b, rs in parts]))
+    tam = [base_case(rng, ch, tamper=rng.choice(TAMPERS).format(j=rng.randint(0, 5), k=rng.randint(0, 5)), hdr_target=ch[0]["target"])
+           for ch in (valid_stream(rng, n_rows=rng.randint(1, 10)) for _ in range(ctx.pick(60, 600)))]
+    go("saveload/epoch", [shift_case(c) for c in pool_cases + tam],
+       f"replicas with every time shifted by T0 = {T0} ns (epoch scale): random law-abiding streams incl. super-runs, a slice of the "
+       "exhaustive chunkings, tampered directories — same comparison and oracle as the unshifted components")
 
     # 5. zero-duration chunks inside super-runs (regression corpus of the fixed finding C03-zero-length-subrun, D31)
     cases = zero_subrun_cases(rng, ctx.pick(120, 1200))
